@@ -1,4 +1,5 @@
 import XV.Lemmas.ChainFrame
+import XV.Lemmas.Assoc
 /-!
 The block tree as `walk` sees it: `ancestors` is a parent-linked chain, `undoTodo` splits the two ancestor chains at
 their lowest common element, and the pointer bookkeeping of the undo / apply loops of `walk`.
@@ -348,5 +349,187 @@ theorem undoTodo_target (e : Env) (cur dest : Nat) (hpl : ParentLower e) :
         exact linked_last_pre e ys u dest r1 hlink
   · rw [hlast]
     simp only [hm, ↓reduceIte]
+
+-- ------------------------------------------------------------------ the fuel of `ancestors` is enough
+
+/-- the list ends at a block without parent -/
+def EndsAtRoot (e : Env) (l : List Nat) : Prop := ∃ x, l.getLast? = some x ∧ (e.block x).pre = none
+
+/-- more fuel does not change an ancestor list that already ends at a root -/
+theorem ancestors_stable (e : Env) (m : Nat) : ∀ (b : Nat), EndsAtRoot e (ancestors e m b) →
+    ∀ k, ancestors e (m + k) b = ancestors e m b := by
+  induction m with
+  | zero =>
+    intro b h
+    obtain ⟨x, hx, _⟩ := h
+    simp [ancestors_zero] at hx
+  | succ n ih =>
+    intro b h k
+    have hk : n + 1 + k = (n + k) + 1 := by omega
+    rw [hk]
+    cases hp : (e.block b).pre with
+    | none => rw [ancestors_succ_none e _ b hp, ancestors_succ_none e _ b hp]
+    | some p =>
+      rw [ancestors_succ_some e _ b p hp, ancestors_succ_some e _ b p hp]
+      rw [ancestors_succ_some e n b p hp] at h
+      obtain ⟨x, hx, hr⟩ := h
+      rw [List.getLast?_cons] at hx
+      cases hl : (ancestors e n p).getLast? with
+      | none =>
+        simp only [hl, Option.getD_none, Option.some.injEq] at hx
+        rw [← hx, hp] at hr; cases hr
+      | some y =>
+        simp only [hl, Option.getD_some, Option.some.injEq] at hx
+        rw [ih p ⟨y, hl, by rw [hx]; exact hr⟩ k]
+
+/-- a tail of an ancestor list is the ancestor list of its head, with the remaining fuel -/
+theorem ancestors_suffix (e : Env) (A : List Nat) : ∀ (m b c : Nat) (r : List Nat),
+    ancestors e m b = A ++ c :: r → c :: r = ancestors e (m - A.length) c := by
+  induction A with
+  | nil =>
+    intro m b c r h
+    cases m with
+    | zero => simp [ancestors_zero] at h
+    | succ n =>
+      rw [ancestors_succ] at h
+      simp only [List.nil_append, List.cons.injEq] at h
+      obtain ⟨hb, hr⟩ := h
+      subst hb
+      simp only [List.length_nil, Nat.sub_zero]
+      rw [ancestors_succ, hr]
+  | cons a A' ih =>
+    intro m b c r h
+    cases m with
+    | zero => simp [ancestors_zero] at h
+    | succ n =>
+      cases hp : (e.block b).pre with
+      | none =>
+        rw [ancestors_succ_none e n b hp] at h
+        simp at h
+      | some p =>
+        rw [ancestors_succ_some e n b p hp] at h
+        simp only [List.cons_append, List.cons.injEq] at h
+        have := ih n p c r h.2
+        have hl : n + 1 - (a :: A').length = n - A'.length := by simp
+        rw [hl]; exact this
+
+/-- either the ancestor list ends at a root, or it used all its fuel on blocks that have a parent -/
+theorem ancestors_root_or_full (e : Env) (m : Nat) : ∀ (b : Nat), EndsAtRoot e (ancestors e m b) ∨
+    ((ancestors e m b).length = m ∧ ∀ x ∈ ancestors e m b, (e.block x).pre ≠ none) := by
+  induction m with
+  | zero => intro b; right; simp [ancestors_zero]
+  | succ n ih =>
+    intro b
+    cases hp : (e.block b).pre with
+    | none =>
+      left
+      rw [ancestors_succ_none e n b hp]
+      exact ⟨b, rfl, hp⟩
+    | some p =>
+      rw [ancestors_succ_some e n b p hp]
+      rcases ih p with ⟨x, hx, hr⟩ | ⟨h1, h2⟩
+      · left
+        refine ⟨x, ?_, hr⟩
+        rw [List.getLast?_cons, hx]; rfl
+      · right
+        refine ⟨by simp [h1], ?_⟩
+        intro x hx
+        rcases List.mem_cons.mp hx with rfl | hx
+        · rw [hp]; simp
+        · exact h2 x hx
+
+theorem block_known_of_pre (e : Env) (x : Nat) (h : (e.block x).pre ≠ none) : x ∈ e.blocks.map (·.1) := by
+  unfold Env.block at h
+  cases hl : lookup e.blocks x with
+  | none => simp [hl] at h; exact absurd rfl h
+  | some v =>
+    have : ∀ (m : List (Nat × Block)), lookup m x = some v → x ∈ m.map (·.1) := by
+      intro m
+      induction m with
+      | nil => intro h; simp at h
+      | cons q r ih =>
+        obtain ⟨a, c⟩ := q
+        rw [lookup_cons]
+        by_cases ha : a = x
+        · intro _; simp [ha]
+        · simp only [ha, ↓reduceIte]
+          intro h; exact List.mem_cons_of_mem _ (ih h)
+    exact this _ hl
+
+/-- **the fuel `blocks.length + 1` always reaches a root** in a tree whose parent links go down in height
+(pigeonhole: the blocks on the way are distinct and, having a parent, known to the environment) -/
+theorem ancestors_complete (e : Env) (hpl : ParentLower e) (b : Nat) :
+    EndsAtRoot e (ancestors e (e.blocks.length + 1) b) := by
+  rcases ancestors_root_or_full e (e.blocks.length + 1) b with h | ⟨h1, h2⟩
+  · exact h
+  · exfalso
+    have hnd : (ancestors e (e.blocks.length + 1) b).Nodup := by
+      rw [List.nodup_iff_pairwise_ne]
+      apply List.Pairwise.imp _ (ancestors_pairwise e hpl _ b)
+      intro x y hxy hne
+      rw [hne] at hxy; omega
+    have hsub : ancestors e (e.blocks.length + 1) b ⊆ e.blocks.map (·.1) :=
+      fun x hx => block_known_of_pre e x (h2 x hx)
+    have := List.Nodup.length_le_of_subset hnd hsub
+    rw [h1, List.length_map] at this
+    omega
+
+/-- in the common-ancestor case of `undoTodo_split` both tails below the lowest common ancestor are its own,
+complete, ancestor list -/
+theorem ancestors_tail_eq (e : Env) (hpl : ParentLower e) (b c : Nat) (A r : List Nat)
+    (h : ancestors e (e.blocks.length + 1) b = A ++ c :: r) :
+    c :: r = ancestors e (e.blocks.length + 1) c := by
+  have hs := ancestors_suffix e A _ b c r h
+  have hroot : EndsAtRoot e (ancestors e (e.blocks.length + 1 - A.length) c) := by
+    rw [← hs]
+    obtain ⟨x, hx, hr⟩ := ancestors_complete e hpl b
+    rw [h, List.getLast?_append] at hx
+    refine ⟨x, ?_, hr⟩
+    cases hl : (c :: r).getLast? with
+    | none => simp at hl
+    | some y => simp only [hl, Option.some_or] at hx; exact hx
+  have hlen : A.length < e.blocks.length + 1 := by
+    have : (ancestors e (e.blocks.length + 1) b).length ≤ e.blocks.length + 1 := by
+      have hfl : ∀ m b', (ancestors e m b').length ≤ m := by
+        intro m
+        induction m with
+        | zero => intro b'; simp [ancestors_zero]
+        | succ n ih =>
+          intro b'
+          cases hp : (e.block b').pre with
+          | none => rw [ancestors_succ_none e n b' hp]; simp
+          | some p => rw [ancestors_succ_some e n b' p hp]; simp; exact ih p
+      exact hfl _ _
+    rw [h] at this
+    simp at this
+    omega
+  have := ancestors_stable e _ c hroot A.length
+  have he : e.blocks.length + 1 - A.length + A.length = e.blocks.length + 1 := by omega
+  rw [he] at this
+  rw [this]; exact hs
+
+/-- checkable form of `ParentLower`: one test per registered block -/
+theorem parentLower_of_blocks (e : Env)
+    (h : ∀ p ∈ e.blocks, ∀ q, p.2.pre = some q → (e.block q).height < p.2.height) : ParentLower e := by
+  intro b q hb
+  unfold Env.block at hb
+  cases hl : lookup e.blocks b with
+  | none => simp [hl] at hb; cases hb
+  | some blk =>
+    have hmem : ∀ (m : List (Nat × Block)), lookup m b = some blk → (b, blk) ∈ m := by
+      intro m
+      induction m with
+      | nil => intro h; simp at h
+      | cons x r ih =>
+        obtain ⟨a, c⟩ := x
+        rw [lookup_cons]
+        by_cases ha : a = b
+        · simp only [ha, ↓reduceIte, Option.some.injEq]
+          intro hc; simp [hc]
+        · simp only [ha, ↓reduceIte]
+          intro h; exact List.mem_cons_of_mem _ (ih h)
+    have := h (b, blk) (hmem _ hl) q (by simpa [hl] using hb)
+    have he : e.block b = blk := by unfold Env.block; rw [hl]; rfl
+    rw [he]; exact this
 
 end XV.Chain
